@@ -1040,7 +1040,101 @@ def check_case(case, R=None):
     raise KeyError(fam)
 
 
-replay = check_case
+# ------------------------------------------- command line forms of `op` --
+# The property lists the command line output among its observation points.
+# `cnfgen op` has three forms (op N; op N d on a random d-regular graph; op
+# <graph>) x flags.  Differential oracle, no expected value written by hand:
+# for d = N-1 the only d-regular graph is the complete one, so `op N (N-1)`,
+# `op complete N` and `op N` must all have the clause SET of the library call
+# with the same flags; `op empty N` must equal the library on the empty graph.
+OP_FLAGS = [[], ['--total'], ['--smart'], ['--plant'], ['--knuth2'], ['--knuth3'],
+            ['--total', '--plant'], ['--smart', '--plant'], ['--knuth2', '--plant'],
+            ['--knuth3', '--plant'], ['--smart', '--total']]
+
+
+def check_cli_op(case):
+    import cnfgen
+    import cnfgen.clitools.msg as msgmod
+    from cnfgen.clitools.cnfgen import cli
+    from cnfgen.clitools.cmdline import CLIError
+    N, flags, form = case['N'], case['flags'], case['form']
+    out = []
+
+    def bad(sym, what):
+        out.append({'key': 'ordering:cli:%s:%s' % (form, sym), 'what': what, 'case': dict(case)})
+    kw = {'total': '--total' in flags, 'smart': '--smart' in flags, 'plant': '--plant' in flags,
+          'knuth': 2 if '--knuth2' in flags else (3 if '--knuth3' in flags else 0)}
+    if form == 'N':
+        argv, graph = [str(N)], None
+    elif form == 'N d':
+        argv, graph = [str(N), str(N - 1)], 'complete'
+    elif form == 'complete':
+        argv, graph = ['complete', str(N)], 'complete'
+    else:
+        argv, graph = ['empty', str(N)], 'empty'
+    try:
+        if graph is None:
+            L = cnfgen.OrderingPrinciple(N, **kw)
+        else:
+            G = cnfgen.Graph.complete_graph(N) if graph == 'complete' else cnfgen.Graph.empty_graph(N)
+            L = cnfgen.GraphOrderingPrinciple(G, **kw)
+        lib = ('ok', L)
+    except ValueError as e:
+        lib = ('refused', e)
+    if hasattr(msgmod, '_prefix'):
+        msgmod._prefix = ''
+    try:
+        F = cli(['cnfgen', '-q', '--seed', '3', 'op'] + flags + argv, mode='formula')
+        tool = ('ok', F)
+    except (CLIError, SystemExit) as e:
+        tool = ('refused', e)
+    except Exception as e:
+        bad('exception:' + type(e).__name__, repr(e)[:200])
+        return out
+    if lib[0] != tool[0]:
+        # the command line may legitimately refuse more (argument types), never less
+        if tool[0] == 'ok':
+            bad('accepted-library-refuses', 'cnfgen op %s accepted, library raised %r' % (flags + argv, lib[1]))
+        return out
+    if lib[0] == 'refused':
+        return out
+    L, F = lib[1], tool[1]
+
+    def named(X):
+        nm = list(X.all_variable_labels())
+        return {frozenset((nm[abs(l) - 1], l > 0) for l in c) for c in X.clauses()}
+    if F.number_of_variables() != L.number_of_variables() or named(F) != named(L):
+        a, b = named(F), named(L)
+        bad('clause-set', 'cnfgen op %s: %d clauses, library %r gives %d; only in tool %r, only in library %r'
+            % (' '.join(flags + argv), len(a), kw, len(b), sorted(map(sorted, a - b))[:1],
+               sorted(map(sorted, b - a))[:1]))
+    return out
+
+
+def cli_op_cases(tier):
+    cs = []
+    for N in (1, 2, 3, 4, 5) + ((6,) if tier == 'thorough' else ()):
+        for flags in OP_FLAGS:
+            for form in ('N', 'N d', 'complete', 'empty'):
+                if form == 'N d' and N < 2:
+                    continue
+                cs.append({'part': 'cli-op', 'N': N, 'flags': flags, 'form': form})
+    return cs
+
+
+def run_cli_op(chunk, R):
+    for case in chunk:
+        vs = check_cli_op(case)
+        R.stats['cli_op_cases'] += 1
+        R.case(sample=case if R.evals % 50 == 0 else None, nontrivial=True)
+        R.outcomes['family:op-cli'] += 1
+        R.extend(vs)
+
+
+def replay(case):
+    if case.get('part') == 'cli-op':
+        return check_cli_op(case)
+    return check_case(case)
 
 
 # ===================================================================== cases
@@ -1239,6 +1333,9 @@ def shards(tier, seed):
         if chunk:
             out.append(('s%03d' % i, 'run_cases', chunk))
     out.append(('selfcheck', 'run_selfcheck', {'tier': tier}))
+    co = cli_op_cases(tier)
+    for i in range(4):
+        out.append(('cliop%d' % i, 'run_cli_op', co[i::4]))
     return out
 
 
